@@ -10,7 +10,7 @@ LEVEL = "exploration"
 SHARDS = {"quick": 16, "thorough": 16}
 RULE = (
     "In one running process, generated sequences of events over a generated program: re-define a memento or plain function (any edit kind of C01: literals, nested constants, defaults, "
-    "set/tuple members, call-edge retarget, hide/unhide), rebind a tracked variable, mutate a list/dict in place, define a symbol that was referenced but undefined (or bound to an opaque placeholder object) so far, move a function to another cluster, rebind a function's name to its underlying plain function and back to the saved memento object (plain assignments), replace a memento "
+    "set/tuple members, call-edge retarget, hide/unhide), rebind a tracked variable, mutate a list/dict (also a list held by a tuple) in place, define a function or variable that was referenced - by bare name or as a missing attribute of another module - but undefined (or bound to an opaque placeholder object) so far, move a function to another cluster, rebind a function's name to its underlying plain function and back to the saved memento object (plain assignments), replace a memento "
     "function by a plain one and back, lock the clusters around a variable change, with a version query of every memento function after every event (or only at the end), plus queries through "
     "freshly created modifier clones (partial, force_local, with_context_args; asked either after or BEFORE the function they are cloned from), through fn_reference() and through an unregistered MementoFunction(fn, register_fn=False). Oracle: a fresh forked "
     "process builds the resulting program (the final namespace: latest definition of each name, each as its own cell, in definition order) and computes the versions. A query must succeed and equal the fresh value, except while the cluster is locked "
@@ -87,6 +87,8 @@ def _plan(case):
             p2, info = progs.apply_edit(cur, ev["edit"], "e%d" % (i + 1))
             if not info["applied"]:
                 continue
+            if info.get("stmt") and progs.find(p2, info["target"]).get("late"):
+                continue   # an in-place mutation of a variable that does not exist yet is not an event
             cells = []
             if info.get("stmt"):
                 cells.append([info["target_mod"], info["stmt"]])
@@ -239,14 +241,20 @@ def strategy(thorough):
         st.builds(lambda i: {"ev": "recluster", "idx": i}, st.integers(0, 5)),
         st.builds(lambda i: {"ev": "unwrap", "idx": i}, st.integers(0, 5)),
         st.builds(lambda e: {"ev": "lockedit", "edit": dict(e, kind="var")}, progs.edit_strategy()),
+        st.builds(lambda e: {"ev": "edit", "edit": dict(e, kind="varmut")}, progs.edit_strategy()),
+        st.builds(lambda i: {"ev": "define", "idx": i}, st.integers(0, 3)),
     )
 
     @st.composite
     def case(draw):
-        p = draw(progs.program_strategy(max_fns=6 if thorough else 5, allow_alias=False, allow_explicit=False))
+        p = draw(progs.program_strategy(max_fns=6 if thorough else 5, allow_alias=False, allow_explicit=False, allow_tuplist=True, allow_dictset=True))
+        # some variables start undefined too (a function in another module then refers to a missing module attribute)
+        for dd in p["defs"]:
+            if dd["k"] == "var" and draw(st.integers(0, 3)) == 0:
+                dd["late"] = True
         # some functions start undefined ("late")
         for dd in progs.fns(p):
-            if dd["name"] != "f0" and draw(st.integers(0, 3)) == 0:
+            if dd["name"] != "f0" and draw(st.integers(0, 3 if dd["memento"] else 2)) == 0:
                 # an opaque placeholder leaves no hash rule behind, so only the registration of a memento
                 # function can signal its replacement; plain helpers start undefined instead
                 dd["late"] = draw(st.sampled_from([True, "placeholder"])) if dd["memento"] else True
